@@ -6,7 +6,7 @@ compiles and passes the existing tests" and is dropped); stage 2: the checks, mo
 violation (killed) or all 20 pass (survivor). One JSON line per mutant in <results dir>/<id>.json."""
 import json, os, shutil, subprocess, sys, threading, queue, time
 
-ENV = dict(os.environ, GOFLAGS="-mod=mod", GOPROXY="off", GOSUMDB="off", GOTOOLCHAIN="local")
+ENV = dict(os.environ, GOFLAGS="-mod=mod", GOPROXY="off", GOSUMDB="off", GOTOOLCHAIN="local", VERIF_SKIP_COQ="1")
 ALL = ["C%02d" % i for i in range(1, 21)]
 REL = {
     "snaps/clean.go": ["C09", "C10", "C07", "C08", "C20"],
